@@ -552,6 +552,59 @@ func ruleCOW5(r *Run) {
 				}
 			}
 		})
+		// whole-struct copies: `c := *v` (or `*dst = *v`) puts every field of the snapshot's object into an object
+		// of the copy; a field whose type gives access to in-place-mutated memory must be overwritten (with a value
+		// that the store rules below judge) before the function returns
+		eachInstr(fn, func(in ssa.Instruction) {
+			sto, ok := in.(*ssa.Store)
+			if !ok {
+				return
+			}
+			nt, _ := sto.Val.Type().(*types.Named)
+			sst, ok := sto.Val.Type().Underlying().(*types.Struct)
+			if !ok || nt == nil || nt.Obj().Pkg() == nil || nt.Obj().Pkg().Path() != larkPath {
+				return
+			}
+			shared, what := false, ""
+			for _, o := range p.origins(sto.Val, originOpts{local: true}) {
+				if u, ok := o.(*ssa.UnOp); ok && u.Op == token.MUL {
+					if sh, w := fromReceiver(u.X); sh {
+						shared, what = true, w
+					}
+				}
+			}
+			if !shared {
+				return
+			}
+			for i := 0; i < sst.NumFields(); i++ {
+				f := sst.Field(i)
+				unsafe, why := e.UnsafeToShare(f.Type())
+				if ws, ok := cm[nt.Obj().Name()+"."+f.Name()]; ok {
+					switch f.Type().Underlying().(type) {
+					case *types.Map, *types.Slice:
+						unsafe, why = true, fmt.Sprintf("container %s.%s is written in place by %s", nt.Obj().Name(), f.Name(), ws[0])
+					}
+				}
+				if !unsafe {
+					continue
+				}
+				k := fmt.Sprintf("%s/shares:struct-copy:%s.%s", key, nt.Obj().Name(), f.Name())
+				overwrites := func(x ssa.Instruction) bool {
+					s2, ok := x.(*ssa.Store)
+					if !ok {
+						return false
+					}
+					fa, ok := s2.Addr.(*ssa.FieldAddr)
+					return ok && fa.X == sto.Addr && fieldOfAddr(fa) == f
+				}
+				if w, _ := (pathQuery{fn: fn, start: sto, target: isReturn, barrier: overwrites}).find(); w != nil {
+					r.bad(k, sto.Pos(), "clone copies the whole %s struct of the published snapshot (%s) into an object of the copy and does not replace its field %s on every path, but %s: the copy and the snapshot share that memory, a later registration mutates what concurrent requests read (and a failed registration leaks into the live state)",
+						nt.Obj().Name(), what, f.Name(), why)
+				} else {
+					r.ok(k, sto.Pos(), "field %s of the struct copy is replaced on every path before the function returns", f.Name())
+				}
+			}
+		})
 		for _, w := range e.AllWrites(fn) {
 			if !w.Fresh {
 				r.bad(key+"/writes-receiver:"+w.Target(), w.Instr.Pos(), "clone writes %s of an object it did not allocate (%s): cloning mutates the published snapshot", w.Target(), w.Kind)
